@@ -298,7 +298,10 @@ def rule_widening(ctx):
         else:
             ctx.undecide('R4', 'unrecognised result %s' % T.show(v))
             continue
-        if holds(R, a) and holds(R, b):
+        if (a, b) in (('i', 'f'), ('u', 'f'), ('f', 'i'), ('f', 'u')) and R != 'f':
+            ctx.violated('R4', fi, 'array kind %s <- assigned kind %s' % (a, b), 'integer data receiving float values (NaN fill of reindex_axis / setna / fillna) must be promoted to float: '
+                         'kind %s <- %s yields %s (an object array: np.isnan and every later reduction fail on it)' % (a, b, R), node=ev.paths[0].node)
+        elif holds(R, a) and holds(R, b):
             ctx.holds('R4', '%s <- %s : %s' % (a, b, R))
         else:
             ctx.violated('R4', fi, 'array kind %s <- assigned kind %s' % (a, b),
